@@ -7,7 +7,7 @@ import ast
 import sympy as sp
 
 from ..core import named_args, AnalysisError, call_name, unparse, walk_no_nested
-from ..degree import ALPHA, LOGZERO, MU, MUM, A, V, analyse
+from ..degree import ALPHA, LOGZERO, MU, MUM, A, V, analyse, is_unknown, iterated, terms_equal
 from ..report import Ctx
 from .c05 import CNL, NESTED
 
@@ -25,6 +25,22 @@ BUILDERS_WITH_NESTS = [
 ]
 
 
+def _not_an_init_field(annotation: ast.expr | None, value: ast.expr | None) -> bool:
+    """an annotated class-level name that is not a parameter of the dataclass __init__: `x: ClassVar[...]`, `x: T = field(init=False)`"""
+    if annotation is not None:
+        a = annotation.value if isinstance(annotation, ast.Subscript) else annotation
+        if isinstance(annotation, ast.Constant) and isinstance(annotation.value, str):
+            if annotation.value.replace('typing.', '').startswith('ClassVar'):
+                return True
+        elif (isinstance(a, ast.Name) and a.id == 'ClassVar') or (isinstance(a, ast.Attribute) and a.attr == 'ClassVar'):
+            return True
+    if isinstance(value, ast.Call) and call_name(value) == 'field':
+        for k in value.keywords:
+            if k.arg == 'init' and isinstance(k.value, ast.Constant) and k.value.value is False:
+                return True
+    return False
+
+
 def _norm(e: sp.Expr | None, scale_one: bool, loose_log: bool = False):
     if e is None:
         return None
@@ -35,23 +51,18 @@ def _norm(e: sp.Expr | None, scale_one: bool, loose_log: bool = False):
     return sp.simplify(sp.expand_log(sp.powsimp(e, force=True), force=True))
 
 
-def _same(a, b) -> bool:
+def _same(a, b) -> bool | None:
+    """True / False (different values at a generic point) / None (cannot tell)"""
     if a is None or b is None:
-        return False
-    d = sp.simplify(a - b)
-    if d == 0:
-        return True
-    d = sp.simplify(sp.expand(sp.expand_log(a - b, force=True)))
-    return d == 0
+        return None
+    return terms_equal(a, b)
 
 
 #: obligations whose failure contradicts the property (rule, construct pattern, why); every other failure is 'not recognised'
 POSITIVE: list[tuple[str, str, str]] = [
-    ('C06.R1', r':(alone|nest|member|return)$', 'degree of homogeneity obtained by typing the builder: a term of G is not of degree 1 / ln G_i not of degree 0'),
-    ('C06.R1', r':multiplicity$', 'a term of G is appended under a loop nest that does not give one term per nest / per alternative alone'),
-    ('C06.R2', r'.', 'the term of the scaled builder at mu = 1, compared symbolically with the term of the unscaled builder'),
+    # C06.R1 (degree of a typed term, multiplicity under classified loops), C06.R2 (typed terms that take different values at
+    # mu = 1) and C06.R3 :fields (positional field order used by cls(*tuple)) pass positive= themselves, under those conditions only
     ('C06.R4', r':log$', 'plain log of a sum that is 0 when every alpha of an alternative is 0'),
-    ('C06.R3', r':fields$', 'field order of the nest tuple read off the class definition'),
 ]
 
 
@@ -77,8 +88,11 @@ def run(ctx: Ctx) -> None:
     for line, msg in it.findings:
         clash = 'degrees differ' in msg or 'sum of terms of degrees' in msg
         ctx.add('C06.R1', 'get_mev_generating_for_nested:typing', False if clash else None, (g.file, line), f'homogeneity typing fails: {msg}' if clash else f'homogeneity typing: statement not in a form the typing understands: {msg}', msg, positive=clash)
-    ret_ok = it.ret is not None and it.ret.kind == 'Hom' and sp.simplify(it.ret.deg - 1) == 0
-    ctx.add('C06.R1', 'get_mev_generating_for_nested:return', ret_ok, g, f'G is {it.ret}' + ('' if ret_ok else '; a nested-logit generating function is homogeneous of degree 1'), str(it.ret))
+    typed = it.ret is not None and it.ret.kind in ('Const', 'Hom', 'LogHom') and (it.ret.kind == 'Const' or it.ret.deg is not None)
+    ret_ok = typed and it.ret.kind == 'Hom' and sp.simplify(it.ret.deg - 1) == 0
+    ctx.add('C06.R1', 'get_mev_generating_for_nested:return', ret_ok if typed else None, g,
+            (f'G is {it.ret}' + ('' if ret_ok else '; a nested-logit generating function is homogeneous of degree 1')) if typed else 'the returned value of get_mev_generating_for_nested is not in a form the typing understands',
+            str(it.ret), positive=typed and not ret_ok and it.ret.kind == 'Hom')
     rets = [n for n in walk_no_nested(g.node) if isinstance(n, ast.Return)]
     cont = None
     if rets and isinstance(rets[-1].value, ast.Call) and call_name(rets[-1].value) == 'bioMultSum' and rets[-1].value.args:
@@ -86,17 +100,25 @@ def run(ctx: Ctx) -> None:
     ctx.need(cont in it.bindings, 'get_mev_generating_for_nested returns bioMultSum(<list it has filled>)')
     kinds = set()
     for b in it.bindings[cont]:
-        alone = any('alone' in x for x in b.loops)
+        classes = it.loop_classes(b.loops)
+        alone = 'alone' in classes
         kinds.add('alone' if alone else 'nest')
         v = b.value
-        ok = v.kind == 'Hom' and sp.simplify(v.deg - 1) == 0
-        ctx.add('C06.R1', f'get_mev_generating_for_nested:{"alone" if alone else "nest"}', ok, (g.file, b.line),
-                f'term {b.text[:70]} is {v}' + ('' if ok else '; every term of G must be homogeneous of degree 1 in y = exp(V) (exp(util[i]) for an alternative alone)'),
-                detail=f'{v}')
-        want_loops = ('nests.alone',) if alone else ('nests',)
-        okl = b.loops == want_loops
-        ctx.add('C06.R1', f'get_mev_generating_for_nested:{"alone" if alone else "nest"}:multiplicity', okl, (g.file, b.line),
-                f'appended under loops {b.loops}' + ('' if okl else f'; one term per {"alternative alone" if alone else "nest"} needs exactly {want_loops}'), detail=str(b.loops))
+        if v.kind not in ('Const', 'Hom', 'LogHom'):
+            ctx.add('C06.R1', f'get_mev_generating_for_nested:{"alone" if alone else "nest"}', None, (g.file, b.line),
+                    f'term {b.text[:70]} not in a form the typing understands (it involves a name or a call whose value the typing does not know)', detail=f'{v}')
+        else:
+            ok = v.kind == 'Hom' and sp.simplify(v.deg - 1) == 0
+            ctx.add('C06.R1', f'get_mev_generating_for_nested:{"alone" if alone else "nest"}', ok, (g.file, b.line),
+                    f'term {b.text[:70]} is {v}' + ('' if ok else '; every term of G must be homogeneous of degree 1 in y = exp(V) (exp(util[i]) for an alternative alone)'),
+                    detail=f'{v}', positive=True)
+        want = ('alone',) if alone else ('nests',)
+        okl = classes == want
+        # a loop the rule cannot classify says nothing about how many times the term is appended
+        verdict = True if okl else (None if 'unknown' in classes else False)
+        ctx.add('C06.R1', f'get_mev_generating_for_nested:{"alone" if alone else "nest"}:multiplicity', verdict, (g.file, b.line),
+                f'appended under loops {b.loops}' + ('' if okl else (f'; one term per {"alternative alone" if alone else "nest"} needs exactly one loop over {"the alternatives alone" if alone else "the nests"}'
+                                                                     if verdict is False else ' - loop nest not in the expected form')), detail=str(b.loops), positive=verdict is False)
     if kinds != {'alone', 'nest'}:
         raise AnalysisError('C06.R1: terms for nests and for alternatives alone not both found in get_mev_generating_for_nested')
     gi = prog.func(NESTED, 'get_mev_for_nested')
@@ -105,8 +127,9 @@ def run(ctx: Ctx) -> None:
         v = b.value
         deg = sp.Integer(0) if v.kind == 'Const' else v.deg if v.kind == 'LogHom' else None
         ok = deg is not None and sp.simplify(deg) == 0
-        ctx.add('C06.R1', f'get_mev_for_nested:{"alone" if any("alone" in x for x in b.loops) else "member"}', ok, (gi.file, b.line),
-                f'ln G_i has degree {deg}' + ('' if ok else '; the derivative of a degree-1 function has degree 0'), detail=str(deg))
+        ctx.add('C06.R1', f'get_mev_for_nested:{"alone" if "alone" in it2.loop_classes(b.loops) else "member"}', ok if deg is not None else None, (gi.file, b.line),
+                (f'ln G_i has degree {deg}' + ('' if ok else '; the derivative of a degree-1 function has degree 0')) if deg is not None else f'ln G_i ({v}) is not in a form the typing understands',
+                detail=str(deg), positive=deg is not None and not ok)
     ctx.floor('C06.R1', 7)
 
     # ---- R2
@@ -114,17 +137,25 @@ def run(ctx: Ctx) -> None:
         fp, fs = prog.func(mod, plain), prog.func(mod, scaled)
         ip, is_ = analyse(fp), analyse(fs)
         for kind in ('alone', 'member'):
-            bp = [b for b in ip.bindings.get(ip.ret_name or '', []) if (any('alone' in x for x in b.loops)) == (kind == 'alone')]
-            bs = [b for b in is_.bindings.get(is_.ret_name or '', []) if (any('alone' in x for x in b.loops)) == (kind == 'alone')]
+            bp = [b for b in ip.bindings.get(ip.ret_name or '', []) if ('alone' in ip.loop_classes(b.loops)) == (kind == 'alone')]
+            bs = [b for b in is_.bindings.get(is_.ret_name or '', []) if ('alone' in is_.loop_classes(b.loops)) == (kind == 'alone')]
             if len(bp) != 1 or len(bs) != 1:
                 raise AnalysisError(f'C06.R2: {plain}/{scaled}: expected one {kind} entry in each, found {len(bp)}/{len(bs)}')
-            tp, ts = _norm(bp[0].value.term, False), _norm(bs[0].value.term, True)
+            vp, vs = bp[0].value, bs[0].value
+            if is_unknown(vp, vs) or vp.term is None or vs.term is None:
+                # a term the typing could not build (a name or a call it does not know): nothing to compare, no accusation
+                ctx.add('C06.R2', f'{plain}/{scaled}:{kind}', None, (fs.file, bs[0].line),
+                        f'the {kind} term of {plain if (is_unknown(vp) or vp.term is None) else scaled} is not in a form the typing understands', detail='untyped')
+                continue
+            tp, ts = _norm(vp.term, False), _norm(vs.term, True)
             ok = _same(tp, ts)
-            loose = ok or _same(_norm(bp[0].value.term, False, True), _norm(bs[0].value.term, True, True))
+            loose = ok or _same(_norm(vp.term, False, True), _norm(vs.term, True, True))
             msg = f'{scaled} with mu=1 gives the {kind} term of {plain}'
-            if not ok:
+            if ok is None:
+                msg = f'{kind} term of {scaled} with mu=1 ({ts}) and of {plain} ({tp}): not in a form the rule can compare'
+            elif not ok:
                 msg = f'{kind} term of {scaled} with mu=1 is {ts}, {plain} has {tp}' + (' (they differ only in log vs logzero, i.e. when the argument is 0)' if loose else '')
-            ctx.add('C06.R2', f'{plain}/{scaled}:{kind}', ok, (fs.file, bs[0].line), msg, detail='' if ok else ('differs only in log vs logzero' if loose else f'{tp} || {ts}'))
+            ctx.add('C06.R2', f'{plain}/{scaled}:{kind}', ok, (fs.file, bs[0].line), msg, detail='' if ok else ('differs only in log vs logzero' if loose else f'{tp} || {ts}'), positive=ok is False)
     ctx.floor('C06.R2', 4)
 
     # ---- R5: one model with and without availabilities
@@ -156,13 +187,20 @@ def run(ctx: Ctx) -> None:
     nests = prog.module('nests')
     for cname, second in (('OneNestForNestedLogit', 'list_of_alternatives'), ('OneNestForCrossNestedLogit', 'dict_of_alpha')):
         c = prog.cls('nests', cname)
-        names = [x[0] for x in c.fields]
-        ok = names[:2] == ['nest_param', second]
-        ctx.add('C06.R3', f'{cname}:fields', ok, c, f'fields begin ({", ".join(names[:2])})' + ('' if ok else f'; the legacy tuple is (nest parameter, {second})'), str(names))
+        # the positional parameters of the generated __init__: annotated names in order, without ClassVar pseudo-fields and
+        # without fields declared field(init=False)
+        names = [x[0] for x in c.fields if not _not_an_init_field(x[1], x[2])]
         ft = c.methods.get('from_tuple')
         ctx.need(ft is not None, f'{cname}.from_tuple')
         p = ft.positional_params()[1]
-        ok = unparse(ft.body[-1]) == f'return cls(*{p})' and 'classmethod' in ft.decorators()
+        star = unparse(ft.body[-1]) == f'return cls(*{p})' and 'classmethod' in ft.decorators()
+        ok = names[:2] == ['nest_param', second]
+        special = any('KW_ONLY' in unparse(x[1]) or (x[2] is not None and 'kw_only' in unparse(x[2])) for x in c.fields) or any('kw_only' in d for d in (unparse(d_) for d_ in c.node.decorator_list))
+        # the order of the fields contradicts the legacy tuple only when the tuple is passed positionally (cls(*tuple))
+        ctx.add('C06.R3', f'{cname}:fields', ok if (ok or (star and not special)) else None, c,
+                f'fields begin ({", ".join(names[:2])})' + ('' if ok else (f'; the legacy tuple is (nest parameter, {second})' if star and not special else ' - the way the legacy tuple reaches the fields is not in the expected form')),
+                str(names), positive=not ok and star and not special)
+        ok = star
         ctx.add('C06.R3', f'{cname}.from_tuple', ok, ft, 'from_tuple is cls(*tuple)' if ok else f'from_tuple: {unparse(ft.body[-1])}', unparse(ft.body[-1]))
     from ..pattern import find, has
 
@@ -192,7 +230,7 @@ super().__init__(choice_set, tuple_of_nests)
             okc = okc and len(guard) == 1 and unparse(guard[0].test) == f'not isinstance({np_}, {cls})'
         ctx.add('C06.R3', f'{name}:conversion', okc, f, f'legacy nests are converted with {cls}(choice_set=list({ut}), tuple_of_nests={np_})' if okc else f'conversion of legacy nests in {name} not in the expected form', unparse(conv[0]) if conv else 'missing')
         # conversion and validity check dominate every loop over nests
-        loops = [n for n in walk_no_nested(f.node) if isinstance(n, ast.For) and unparse(n.iter) in (np_, f'{np_}.alone')]
+        loops = [n for n in walk_no_nested(f.node) if isinstance(n, ast.For) and unparse(iterated(n.iter)) in (np_, f'{np_}.alone')]
         b = find(f.node, f"""
 _OK, _MSG = {np_}.{check}()
 if not _OK:
